@@ -76,13 +76,13 @@ func runC01(c *core.Ctx, o Options) {
 		an.AllInstrs(fn, func(in ssa.Instruction) {
 			if st, ok := in.(*ssa.Store); ok {
 				if fa, ok := st.Addr.(*ssa.FieldAddr); ok && an.FieldOf(fa) == prepared {
-					writers = append(writers, fn.Name())
+					writers = append(writers, an.NameOf(fn))
 				}
 			}
 			if r, ok := in.(*ssa.Return); ok {
 				for _, v := range r.Results {
 					if f, _ := an.LoadedField(an.Unspill(v)); f == prepared {
-						returners = append(returners, fn.Name())
+						returners = append(returners, an.NameOf(fn))
 					}
 				}
 			}
